@@ -289,6 +289,23 @@ def run_cross_thread(ctx, exe):
             else:
                 ops += [8, arng.randrange(nsl), 0]
         acases.append(ops)
+    # directed: realloc of a huge object (alone in its region: the mremap path) to sizes just below bin boundaries, by a thread whose large-object shuffle index has advanced
+    MB = 1 << 20
+    dir_cases = []
+    for W in ([37, 300] if ctx.quick() else [0, 5, 37, 150, 300]):
+        for S1 in ([41 * MB] if ctx.quick() else [20 * MB, 41 * MB]):
+            for M in ([3 * MB, 12 * MB, 24 * MB] if ctx.quick() else [2 * MB, 3 * MB, 4 * MB, 6 * MB, 8 * MB, 12 * MB, 16 * MB, 24 * MB, 32 * MB]):
+                for d in ([40, 168, 1000] if ctx.quick() else [8, 40, 104, 168, 232, 1000, 4000, 8200]):
+                    ops = []
+                    for w in range(W):
+                        ops += [1, 65536 + (w * 7919) % (900 * 1024), 0]
+                    for w in range(W):
+                        ops += [2, w, 0]
+                    ops += [1, S1, 0, 4, W, M - d, 8, W, 0, 4, W, M + 64 * 1024 - d]
+                    dir_cases.append(ops)
+    acases += dir_cases
+    ctx.rules.append("malloc-api, directed: a thread that made 0-300 earlier large allocations allocates 20 / 41 MB (alone in its region) and reallocs it to sizes 8..8200 bytes below 2..32 MB (the mremap path of "
+                     "Backend::remap), then again a little larger: the block is filled and checked like every other block (a tail outside the mapping crashes)")
     ctx.rules.append("malloc-api (oracle only): random sequences over malloc / calloc / realloc / aligned_malloc / aligned_realloc / posix_memalign / free / msize with sizes at the class and route "
                      "boundaries and alignments 8..16384 and, one time in five, 2^20..2^36 (such a request may be refused; a block that is returned must be backed by accessible memory): no overlap with live blocks, alignment, msize >= size, calloc zero-filled, realloc keeps min(old,new) bytes, live blocks keep their pattern")
 
